@@ -9,6 +9,20 @@ enum Profile { Dev, Prod }
 #[derive(ConfigProfile, Debug, Clone, Copy, PartialEq)]
 enum Mixed { #[px(profile = "local")] Development, Staging, #[px(profile = "live")] Production, QaTeam }
 
+/// custom names are used VERBATIM (case, digits, underscores): as the accepted PX_PROFILE value and as the file stem
+#[derive(ConfigProfile, Debug, Clone, Copy, PartialEq)]
+enum Verbatim { #[px(profile = "prodEU")] ProdEu, #[px(profile = "stage2")] Stage2, #[px(profile = "UPPER")] Upper, #[px(profile = "with_Under_Score9")] WithUnderscore, #[px(profile = "Dev")] CapitalisedDev }
+
+#[derive(serde::Deserialize, Debug, PartialEq)]
+#[serde(deny_unknown_fields)]
+struct Tls { cert: String, key: String }
+#[derive(serde::Deserialize, Debug, PartialEq)]
+#[serde(deny_unknown_fields)]
+struct Server { port: i64, tls: Tls }
+#[derive(serde::Deserialize, Debug, PartialEq)]
+#[serde(deny_unknown_fields)]
+struct Deep { server: Server, origin: String }
+
 #[derive(serde::Deserialize, Debug, PartialEq)]
 #[serde(deny_unknown_fields)]
 struct Nested { a: i64, b: i64, c: i64 }
@@ -80,5 +94,76 @@ fn derived_profiles_map_each_variant_to_its_own_name() {
     unsafe { std::env::set_var("PX_PROFILE", "local"); }
     let c: Config = ConfigLoader::<Mixed>::new().configuration_dir(&d).load().unwrap();
     assert_eq!(c.profile_wins, 8);
+    clear(); let _ = std::fs::remove_dir_all(d);
+}
+
+/// `__` is the nesting separator at EVERY level: a key two and three levels down is taken from the environment
+#[test]
+fn environment_wins_at_every_nesting_depth() {
+    let _g = ENV.lock().unwrap_or_else(|e| e.into_inner()); clear();
+    let d = std::env::temp_dir().join(format!("verif-c18-{}-deep", std::process::id()));
+    std::fs::create_dir_all(&d).unwrap();
+    std::fs::write(d.join("base.yml"), "origin: base\nserver:\n  port: 1\n  tls:\n    cert: base.pem\n    key: base.key\n").unwrap();
+    std::fs::write(d.join("dev.yml"), "server:\n  tls:\n    cert: dev.pem\n").unwrap();
+    unsafe { std::env::set_var("PX_SERVER__TLS__CERT", "env.pem"); std::env::set_var("PX_SERVER__PORT", "3"); }
+    let c: Deep = ConfigLoader::new().profile(Profile::Dev).configuration_dir(&d).load().unwrap();
+    assert_eq!(c, Deep { origin: "base".into(), server: Server { port: 3, tls: Tls { cert: "env.pem".into(), key: "base.key".into() } } });
+    unsafe { std::env::remove_var("PX_SERVER__TLS__CERT"); std::env::set_var("PX_SERVER__TLS__KEY", "env.key"); }
+    let c: Deep = ConfigLoader::new().profile(Profile::Dev).configuration_dir(&d).load().unwrap();
+    assert_eq!(c.server.tls, Tls { cert: "dev.pem".into(), key: "env.key".into() });
+    clear(); let _ = std::fs::remove_dir_all(d);
+}
+
+/// the configured directory — relative (found in a parent of the working directory), absolute, or missing —
+/// is the only place files are read from; the default `configuration/` next to it is never a fallback
+#[test]
+fn files_are_read_from_the_configured_directory_only() {
+    let _g = ENV.lock().unwrap_or_else(|e| e.into_inner()); clear();
+    let root = std::env::temp_dir().join(format!("verif-c18-{}-dirs", std::process::id()));
+    let _ = std::fs::remove_dir_all(&root);
+    for (sub, origin) in [("settings", "settings"), ("configuration", "decoy")] {
+        std::fs::create_dir_all(root.join(sub)).unwrap();
+        std::fs::write(root.join(sub).join("base.yml"), format!("origin: {origin}\nserver:\n  port: 1\n  tls:\n    cert: c\n    key: k\n")).unwrap();
+        std::fs::write(root.join(sub).join("dev.yml"), "server:\n  port: 2\n").unwrap();
+    }
+    std::fs::create_dir_all(root.join("crates/app")).unwrap();
+    let before = std::env::current_dir().unwrap();
+    std::env::set_current_dir(root.join("crates/app")).unwrap();
+    let relative = ConfigLoader::new().profile(Profile::Dev).configuration_dir("settings").load::<Deep>();
+    let absolute = ConfigLoader::new().profile(Profile::Dev).configuration_dir(root.join("settings")).load::<Deep>();
+    let default = ConfigLoader::new().profile(Profile::Dev).load::<Deep>();
+    let missing = ConfigLoader::new().profile(Profile::Dev).configuration_dir("no-such-directory").load::<Deep>();
+    let missing_abs = ConfigLoader::new().profile(Profile::Dev).configuration_dir(root.join("no-such-directory")).load::<Deep>();
+    std::env::set_current_dir(before).unwrap();
+    assert_eq!(relative.expect("a relative directory is looked up in the parents of the working directory").origin, "settings");
+    assert_eq!(absolute.unwrap().origin, "settings");
+    assert_eq!(default.expect("the default directory is `configuration`").origin, "decoy");
+    assert!(missing.is_err(), "a directory that does not exist holds no keys: missing required keys are an error, not a default");
+    assert!(missing_abs.is_err(), "a directory that does not exist holds no keys: missing required keys are an error, not a default");
+    clear(); let _ = std::fs::remove_dir_all(root);
+}
+
+/// the derive macro uses a custom profile name verbatim, in both directions, and `load` reads the file of that name
+#[test]
+fn custom_profile_names_are_used_verbatim() {
+    use std::str::FromStr;
+    let want = [(Verbatim::ProdEu, "prodEU"), (Verbatim::Stage2, "stage2"), (Verbatim::Upper, "UPPER"), (Verbatim::WithUnderscore, "with_Under_Score9"), (Verbatim::CapitalisedDev, "Dev")];
+    for (v, name) in want {
+        assert_eq!(v.as_ref(), name, "{v:?}.as_ref()");
+        assert_eq!(Verbatim::from_str(name).ok(), Some(v), "from_str({name:?})");
+        assert_eq!(Verbatim::from_str(v.as_ref()).ok(), Some(v), "from_str(as_ref()) round trip of {v:?}");
+    }
+    for bad in ["prod_eu", "prodeu", "stage_2", "upper", "with_under_score9", "with_under_score_9", "dev"] { assert!(Verbatim::from_str(bad).is_err(), "from_str({bad:?}) must fail"); }
+    let _g = ENV.lock().unwrap_or_else(|e| e.into_inner()); clear();
+    let d = dir("v");
+    for (_, name) in want { std::fs::write(d.join(format!("{name}.yml")), "profile_wins: 9\n").unwrap(); }
+    for (v, name) in want {
+        let c: Config = ConfigLoader::new().profile(v).configuration_dir(&d).load().unwrap();
+        assert_eq!(c.profile_wins, 9, "explicit profile {name:?}: {name}.yml was not read");
+        unsafe { std::env::set_var("PX_PROFILE", name); }
+        let c: Config = ConfigLoader::<Verbatim>::new().configuration_dir(&d).load().unwrap();
+        assert_eq!(c.profile_wins, 9, "PX_PROFILE={name}: {name}.yml was not read");
+        unsafe { std::env::remove_var("PX_PROFILE"); }
+    }
     clear(); let _ = std::fs::remove_dir_all(d);
 }
